@@ -46,7 +46,7 @@ def _simple_regime(rng, cfg):
     thumb = rng.getrandbits(1)
     cpsr = G.random_cpsr(rng, cfg, thumb=thumb, mode=rng.choice(['usr', 'svc', 'sys', 'irq', 'und', 'abt']), e=None)
     sys = {'sctlr': G.sctlr_value(m=int(cfg['memory_system_architecture'] == 'PMSA' and rng.random() < 0.5), a=int(rng.random() < 0.2),
-                                 u=rng.getrandbits(1), te=rng.getrandbits(1), v=int(rng.random() < 0.2), br=1, tre=1)}
+                                 u=rng.getrandbits(1), te=rng.getrandbits(1), v=int(rng.random() < 0.2), br=1, tre=1, ve=int(rng.random() < 0.3))}
     if cfg['memory_system_architecture'] == 'PMSA':
         regs = G.random_mpu(rng, cfg['number_of_mpu_regions'])
         regs[0] = (1 | 31 << 1, 0, 3 << 8)
@@ -96,7 +96,7 @@ def _core(rng, cfg, nt):
 
 
 def _cfg(rng):
-    return G.random_config(rng, allow_virt=True, allow_lpae=False, archs=(6, 7, 7, 5))
+    return G.random_config(rng, allow_virt=True, allow_lpae=False, archs=(6, 7, 7, 5), extras=True)
 
 
 def _schedule(rng, n, lens):
